@@ -931,6 +931,9 @@ def inline_new_aliases(trees, inv):
                                 and root in sets.get(c.func.attr, ()) and (in_loop or c.lineno >= st.lineno):
                             risky.add(st.targets[0].id)
             only = new - risky
+            # only locals with a plain binding can be aliases (loop targets are not): nothing to do otherwise
+            plain = {st.targets[0].id for st in ast.walk(fn) if isinstance(st, ast.Assign) and len(st.targets) == 1 and isinstance(st.targets[0], ast.Name)}
+            only &= plain
             if not only:
                 continue
             fn2 = inline_pure_aliases(fn, only=only)
